@@ -215,6 +215,13 @@ def check(prop, tier, seed):
         cev, cpath = simple.run_lab('call', cstims, tag, 'calls', annotate=decomp.annotate)
         simple.validate(prop, 'Trace_Call', verdict, cev, cpath, 'calls', cov, clause_filter=p_call.clause_filter('C03'), harness_clauses=p_call.HARNESS)
         cov['samples'].append({'family': 'calls', 'stimulus': simple.sample_of(cstims)})
+    if prop == 'C06':
+        # the limits as configured on generated clients / servers (max_{de,en}coding_message_size), end to end
+        from . import p_call, simple
+        lstims = p_call.limit_stims(seed, tier)
+        lev, lpath = simple.run_lab('call', lstims, tag, 'call_limits', annotate=decomp.annotate)
+        simple.validate(prop, 'Trace_Call', verdict, lev, lpath, 'call_limits', cov, clause_filter=p_call.clause_filter('C06'), harness_clauses=p_call.HARNESS)
+        cov['samples'].append({'family': 'call_limits', 'stimulus': simple.sample_of(lstims)})
     ok_mc = [m for m in mc_stats if 'distinct' in m and not m.get('expected_violation_found')]
     cov['states'] = sum(m.get('distinct', 0) for m in ok_mc)
     cov['transitions'] = sum(m.get('generated', 0) for m in ok_mc)
